@@ -6,12 +6,15 @@
 package main
 
 import (
+	"bytes"
 	"fmt"
 	"os"
 	"os/exec"
 	"path/filepath"
 	"strings"
 	"time"
+
+	"google.golang.org/protobuf/proto"
 
 	"verifharness/common"
 )
@@ -48,6 +51,9 @@ type cliCase struct {
 	Args     []string `json:"args"`
 	ProjAttr string   `json:"proj_attr,omitempty"` // attributes of the project application, as written in the source
 	EpAttr   string   `json:"ep_attr,omitempty"`   // attributes of Project <- E00
+	// when set: no source file; this module goes to the standard input of the command as a compiled (binary protobuf)
+	// module - the one way into `sysl sd` on which the parser's post-processing does not look at the statements first
+	Stdin *caseT `json:"stdin,omitempty"`
 }
 
 func cliApps() []appT {
@@ -128,6 +134,18 @@ func cliStream(c *common.Ctx) {
 		tcase{cc: cliCase{Args: []string{"sd", "-o", "%(epname).puml", "-a", "Project"}, ProjAttr: ` [blackboxes=[["A01 <- E00"]]]`}, expect: "any"},
 		tcase{cc: cliCase{Args: []string{"sd", "-o", "%(epname).puml", "-a", "Project"}, ProjAttr: ` [epfmt="%(epname"]`}, expect: "error"},
 	)
+	// a compiled module on standard input that holds a statement without a type: in an endpoint the diagram expands
+	// (not a crash), and in one it does not reach (harmless)
+	withNil := func(a, e int) *caseT {
+		ap := cliApps()
+		ap[a].Eps[e].Body = append(ap[a].Eps[e].Body, stmt{K: kBlock, BK: 0, Body: []stmt{{K: kNil}}})
+		return &caseT{Apps: ap}
+	}
+	cases = append(cases,
+		tcase{cc: cliCase{Args: []string{"sd", "-o", "out.puml", "-s", "A00 <- E00"}, Stdin: &caseT{Apps: cliApps()}}, wants: one, expect: "ok"},
+		tcase{cc: cliCase{Args: []string{"sd", "-o", "out.puml", "-s", "A00 <- E00"}, Stdin: withNil(2, 0)}, expect: "any"}, // an error (or a diagram without it): not a crash
+		tcase{cc: cliCase{Args: []string{"sd", "-o", "out.puml", "-s", "A00 <- E00"}, Stdin: withNil(2, 1)}, wants: one, expect: "ok"},
+	)
 	for _, t := range cases {
 		cc := t.cc
 		rp := replayT{Kind: "cli", Cli: &cc}
@@ -136,6 +154,11 @@ func cliStream(c *common.Ctx) {
 		sub, _ := os.MkdirTemp(dir, "run")
 		os.WriteFile(filepath.Join(sub, "m.sysl"), []byte(fmt.Sprintf(cliSource, t.cc.ProjAttr, t.cc.EpAttr)), 0o644)
 		cmd := exec.Command(bin, append(append([]string{}, t.cc.Args...), "m.sysl")...)
+		if t.cc.Stdin != nil {
+			pb, _ := proto.Marshal(buildModule(t.cc.Stdin))
+			cmd = exec.Command(bin, t.cc.Args...)
+			cmd.Stdin = bytes.NewReader(pb)
+		}
 		cmd.Dir = sub
 		var outb []byte
 		var rerr error
@@ -163,6 +186,8 @@ func cliStream(c *common.Ctx) {
 				key = fmtPanicKey(so)
 			case strings.Contains(so, "index out of range") || strings.Contains(so, "nil pointer"):
 				key = "panic:blackboxes-attribute-shape"
+			case strings.Contains(so, "Unrecognised statement"):
+				key = "panic:statement-without-type"
 			}
 			c.Fail(key, "sysl sd dies with a Go panic: "+strings.ReplaceAll(so[:min(len(so), 240)], "\n", " "), rp)
 			c.Hist("cli-outcome:panic")
@@ -191,6 +216,9 @@ func cliStream(c *common.Ctx) {
 				continue
 			}
 			tc := &caseT{Apps: apps, Starts: w.starts}
+			if t.cc.Stdin != nil {
+				tc.Apps = t.cc.Stdin.Apps
+			}
 			for _, b := range t.bbs {
 				if a, e, ok := resolveKey(apps, b[0]); ok && len(b[1]) > 0 {
 					tc.BBs = append(tc.BBs, bbT{A: a, E: e, Cut: true, CLen: 2})
